@@ -106,7 +106,7 @@ class Report:
         tmp = os.path.join(EVID, f".{self.prop}.{os.getpid()}.tmp")
         with open(tmp, "w") as f:
             json.dump(ev, f, indent=1, default=repr)
-        os.replace(tmp, os.path.join(EVID, f"{self.prop}.json"))
+        os.replace(tmp, os.path.join(EVID, f"{self.prop}{os.environ.get('VERIF_EVID_SUFFIX', '')}.json"))
         for k in self.known:
             print(f"KNOWN-FINDING: property={self.prop} {k}")
         for p, text in self.violations:
